@@ -87,13 +87,13 @@ proof fn flags400_facts(ym: int)
          "                  in_range(v_year(self), ordinal as int); }"),
         ("NaiveDate::from_ordinal_and_flags(year_div_400 * 400", "        proof { slow_path(v_year(self), v_ord(self), days as int, cycle_div_400y as int, cycle as int, year_mod_400 as int, ordinal as int); }")])
     u.prove(F, 'num_days_from_ce', IMPL, cid='NaiveDate::num_days_from_ce', hints=[
-        ("ndays += ((year * 1461) >> 2)", "        proof { let a = (year * 1461) as i32; assert(0 <= year < 400 * 800);\n"
+        ("ndays += ((year * 1461) >> 2)", "        proof { reveal(days_before_year); let a = (year * 1461) as i32; assert(0 <= year < 400 * 800);\n"
          "          assert(a >> 2u32 == a / 4) by(bit_vector) requires a >= 0;\n"
          "          assert(div_100 >> 2u32 == div_100 / 4) by(bit_vector) requires div_100 >= 0; }")])
     # the provided method of trait Datelike (what callers outside the crate get for NaiveDate), at Self = NaiveDate (R6)
     u.prove('src/traits.rs', 'num_days_from_ce', 'pub trait Datelike: Sized {', cid='NaiveDate::Datelike__num_days_from_ce',
             rename='Datelike__num_days_from_ce', hints=[
-        ("ndays += ((year * 1461) >> 2)", "        proof { let a = (year * 1461) as i32; assert(0 <= year < 400 * 800);\n"
+        ("ndays += ((year * 1461) >> 2)", "        proof { reveal(days_before_year); let a = (year * 1461) as i32; assert(0 <= year < 400 * 800);\n"
          "          assert(a >> 2u32 == a / 4) by(bit_vector) requires a >= 0;\n"
          "          assert(div_100 >> 2u32 == div_100 / 4) by(bit_vector) requires div_100 >= 0; }")])
     u.prove(F, 'signed_duration_since', IMPL, cid='NaiveDate::signed_duration_since', hints=[
